@@ -86,7 +86,34 @@ def decode_char(ex, bs, p):
         c = ((z[0] & 0x0F) << 12) | ((z[1] & 0x3F) << 6) | (z[2] & 0x3F)
     else:
         c = ((z[0] & 0x07) << 18) | ((z[1] & 0x3F) << 12) | ((z[2] & 0x3F) << 6) | (z[3] & 0x3F)
-    return z3.simplify(c), w
+    c = z3.simplify(c)
+    # remember where the code point came from: re-encoding it yields the original bytes
+    tab = getattr(ex, "char_origin", None)
+    if tab is None:
+        tab = ex.char_origin = {}
+    tab[c.get_id()] = (c, tuple(b))
+    return c, w
+
+
+def encode_char(ex, ch):
+    """UTF-8 bytes of a char (int or BitVec32 of a Unicode scalar value); forks on the width class"""
+    if isinstance(ch, int):
+        return tuple(chr(ch).encode("utf-8"))
+    tab = getattr(ex, "char_origin", None) or {}
+    hit = tab.get(ch.get_id())
+    if hit is not None and hit[0].eq(ch):
+        return hit[1]
+    ch = bv(ch, 32)
+
+    def byte(e):
+        return z3.simplify(z3.Extract(7, 0, e))
+    if ex.branch(z3.ULT(ch, 0x80), "enc1"):
+        return (byte(ch),)
+    if ex.branch(z3.ULT(ch, 0x800), "enc2"):
+        return (byte(0xC0 | z3.LShR(ch, 6)), byte(0x80 | (ch & 0x3F)))
+    if ex.branch(z3.ULT(ch, 0x10000), "enc3"):
+        return (byte(0xE0 | z3.LShR(ch, 12)), byte(0x80 | (z3.LShR(ch, 6) & 0x3F)), byte(0x80 | (ch & 0x3F)))
+    return (byte(0xF0 | z3.LShR(ch, 18)), byte(0x80 | (z3.LShR(ch, 12) & 0x3F)), byte(0x80 | (z3.LShR(ch, 6) & 0x3F)), byte(0x80 | (ch & 0x3F)))
 
 
 # ------------------------------------------------------------------------------------------------
@@ -194,7 +221,8 @@ def m_string_push(ex, c, args):
         if isinstance(ch, int):
             wr(args[0], BStr(b.b + tuple(chr(ch).encode("utf-8"))))
             return UNIT
-        raise Unmodelled("String::push of a symbolic char")
+        wr(args[0], BStr(b.b + encode_char(ex, ch)))
+        return UNIT
     return MODELS["String::push"](ex, c, args)
 
 
@@ -362,9 +390,25 @@ def sym_char_class(ex, method, ch):
     return ex.branch(z3.Or(*[z3.And(z3.UGE(ch, a), z3.ULE(ch, b)) for a, b in rng]), "charclass")
 
 
+def collect_string(ex, items):
+    """`collect::<String>()` of chars / string pieces, some of them symbolic"""
+    out = ()
+    for x in items:
+        if isinstance(x, str):
+            out += tuple(x.encode("utf-8"))
+        elif type(x) is BStr:
+            out += tuple(x.b)
+        elif type(x) is Ref:
+            out += to_bstr(rda(x)).b
+        else:
+            out += encode_char(ex, x)
+    return BStr(out)
+
+
 def install_hooks(ex):
     """hooks the generic models consult for byte strings"""
     ex.bstr_method = bstr_method
+    ex.collect_string = collect_string
     ex.sym_char_class = sym_char_class
     def slice_check(ex_, v, a, b):
         # slicing a str panics when a or b is not a char boundary: a boundary is the start of a
